@@ -15,9 +15,9 @@ import (
 type Action int
 
 const (
-	Accept Action = iota // read body, answer 200: the only outcome that counts as a delivery
-	Fail5xx              // read body, answer 503
-	Hang                 // read body, do not answer until Release / client gives up (tile38: 5 s) / 30 s; then 503
+	Accept  Action = iota // read body, answer 200: the only outcome that counts as a delivery
+	Fail5xx               // read body, answer 503
+	Hang                  // read body, do not answer until Release / client gives up (tile38: 5 s) / 30 s; then 503
 )
 
 // Attempt is one request seen by the endpoint, delivered or not.
@@ -45,6 +45,7 @@ type Endpoint struct {
 	attempts []Attempt
 	release  chan struct{}
 	keep     bool // keep attempts
+	discard  map[string]bool
 }
 
 // NewEndpoint starts the endpoint on a free port.
@@ -95,6 +96,17 @@ func (e *Endpoint) Stream(path string) *Stream {
 func (e *Endpoint) Forget(path string) {
 	e.mu.Lock()
 	delete(e.streams, path)
+	e.mu.Unlock()
+}
+
+// Discard makes the endpoint accept but not record the requests of a path
+// (for hooks that only exist to load the server).
+func (e *Endpoint) Discard(path string) {
+	e.mu.Lock()
+	if e.discard == nil {
+		e.discard = map[string]bool{}
+	}
+	e.discard[path] = true
 	e.mu.Unlock()
 }
 
@@ -193,7 +205,7 @@ func (e *Endpoint) handle(w http.ResponseWriter, r *http.Request) {
 		e.attempts = append(e.attempts, Attempt{Path: path, Body: string(body), Action: act, At: time.Now()})
 	}
 	rel := e.release
-	if act == Accept {
+	if act == Accept && !e.discard[path] {
 		// recorded under the lock and before the 200 is written: the sender
 		// only sends the hook's next message after it has read this answer, so
 		// the stream order is the hook's send order.
